@@ -459,6 +459,19 @@ func c12Gen(rng *verifsim.RNG, idx int, tier string) *Plan {
 			t += nsSec
 		}
 		p.Horizon = t + 2*nsSec
+		if !strings.Contains(p.Class, "overlapping-build") && rng.Bool(0.3) {
+			// a second advertising interface configured by the same stanza
+			// (names = [...]) but with addresses of its own: each checks its
+			// neighbours against its own RA
+			secondInterface(rng, p)
+			n = &p.Nodes[0]
+			if c := &n.Config.Interfaces[0]; c.Name != "" {
+				c.Names, c.Name = []string{"eth0", "eth1"}, ""
+				n.Config.Interfaces = n.Config.Interfaces[:1]
+			}
+			n.Ifaces[1].Addrs = []AddrW{{CIDR: n.Ifaces[1].LL + "/64", Forever: true}, {CIDR: "2001:db8:9::1/64"}, {CIDR: "fd00:9::1/64"}}
+			p.Class += "+names-group"
+		}
 	case 0:
 		// twin: a second real CoreRAD with the same configuration on the same link
 		p.Class = "twin"
